@@ -246,6 +246,47 @@ pub fn run(cx: &mut Cx) {
         ensure!(x == SocketAddr::new(b, q), "set_port result is not equal to new(ip, port): {x:?}");
         Ok(())
     });
+    cx.want(&["v4-broadcast", "v4-other", "v6"]).check("udp_indexmap.rs::SocketAddr::idiom_is_v4_broadcast", |rng| {
+        // stands for the match arm `SocketAddr::V4(dst) if dst.ip().is_broadcast()`
+        let a = match rng.below(4) { 0 => IpAddr::V4(Ipv4Addr::BROADCAST), 1 => IpAddr::V6(Ipv6Addr::from(0xffff_ffffu128)), _ => gen(rng) };
+        let x = SocketAddr::new(a, rng.u16());
+        let real = match x { SocketAddr::V4(dst) if dst.ip().is_broadcast() => true, _ => false };
+        let spec = match abs(a) { MIp::V4(m) => m.bits == 0xffff_ffff, MIp::V6(_) => false };
+        hit(if spec { "v4-broadcast" } else if a.is_ipv4() { "v4-other" } else { "v6" });
+        ensure!(real == spec, "{x}: arm taken {real}, spec {spec}");
+        Ok(())
+    });
+    // nettcp_sockaddr.rs: SocketAddr in its enum shape; model = V4{ip_, port_} | V6{ip_, port_}
+    cx.want(&["v4", "v6", "equal"]).check("nettcp_sockaddr.rs::SockAddr::{new, ip, port, is_ipv4, is_ipv6} + SocketAddrV4/V6::{ip, port} + eq_spec", |rng| {
+        #[derive(PartialEq, Eq, Debug, Clone, Copy)]
+        enum MSock { V4(M4, u16), V6(M6, u16) }
+        let absx = |x: SocketAddr| match x {
+            SocketAddr::V4(a) => MSock::V4(abs4(*a.ip()), a.port()),
+            SocketAddr::V6(a) => MSock::V6(abs6(*a.ip()), a.port()),
+        };
+        let (a, b) = gen_pair(rng);
+        let (p, q) = (rng.u16() % 3, rng.u16() % 3);
+        let (x, y) = (SocketAddr::new(a, p), SocketAddr::new(b, q));
+        hit(if a.is_ipv4() { "v4" } else { "v6" });
+        // new: r.sip() == ip, r.sport() == port, variant follows the address family
+        match (absx(x), abs(a)) {
+            (MSock::V4(m, port), MIp::V4(n)) => ensure!(m == n && port == p, "new({a},{p}) = {x:?}"),
+            (MSock::V6(m, port), MIp::V6(n)) => ensure!(m == n && port == p, "new({a},{p}) = {x:?}"),
+            _ => return Err(format!("new({a},{p}) = {x:?}: wrong variant")),
+        }
+        ensure!(x.ip() == a && x.port() == p, "ip()/port() of {x:?}");
+        ensure!(x.is_ipv4() == matches!(x, SocketAddr::V4(_)) && x.is_ipv6() == matches!(x, SocketAddr::V6(_)), "is_ipv4/is_ipv6 of {x:?}");
+        match x {
+            SocketAddr::V4(v) => ensure!(IpAddr::V4(*v.ip()) == a && v.port() == p, "SocketAddrV4::ip/port of {v:?}"),
+            SocketAddr::V6(v) => ensure!(IpAddr::V6(*v.ip()) == a && v.port() == p, "SocketAddrV6::ip/port of {v:?}"),
+        }
+        // derived structural equality of the model == std equality (flowinfo / scope id 0), lemma_sockaddr_ext
+        if x == y {
+            hit("equal");
+        }
+        ensure!((x == y) == (absx(x) == absx(y)) && (x == y) == (a == b && p == q), "{x} == {y}: std {}, model {}", x == y, absx(x) == absx(y));
+        Ok(())
+    });
     cx.check("udp_io.rs::SocketAddr::from<(IpAddr, u16)>", |rng| {
         let a = gen(rng);
         let p = rng.u16();
